@@ -310,6 +310,7 @@ static void build(vf::Plan &plan, const vf::Opts &o)
                    seq_from(i, B, LC, cps);
                    return show_cps(cps);
                });
+    vf_early::add_stage(plan);
 }
 
 VF_MAIN("C01", build)
